@@ -16,7 +16,7 @@ import os
 
 ID = "C35"
 PROP_FILE = "Props/C35.v"
-THEOREMS = ["C35_a_inputs_never_modified", "C35_a_inputs_read_back_unchanged", "C35_c_backup_exactly_once_in_order"]
+THEOREMS = ["C35_a_inputs_never_modified", "C35_c_backup_exactly_once_in_order"]
 _COQ_BASE = "From BV Require Import Pure.Normalizer.\nFrom Coq Require Import String ZArith List.\nOpen Scope string_scope."
 COQ_IMPORTS = _COQ_BASE      # coq_term appends the table of interned string literals (see cstr)
 MODELLED = ("RunNormalizer's handlers and _ConditionalBackup are transcribed by hand (Pure/Normalizer.v): Python dicts/lists "
